@@ -6,7 +6,12 @@
 (* `dirs` (configuration-time exclusion / update directives) is used by    *)
 (* the C17 family only.                                                    *)
 (***************************************************************************)
-EXTENDS Engine
+EXTENDS Engine, SequencesExt
+
+\* Slicing: several TLC processes run in parallel, process `slice` of `slices` takes every
+\* slices-th element (in TLC's deterministic enumeration order) of one dimension of a family.
+SliceOf(S, slice, slices) ==
+  LET q == SetToSeq(S) IN {q[j] : j \in {k \in 1..Len(q) : k % slices = slice}}
 
 \* ---- byte-string literals used by the families ----
 s_a  == <<97>>          \* "a"
@@ -87,33 +92,60 @@ FlowRule(i, t) ==
 FlowKeys(n, maxChain) == {s_m(i) : i \in 1..n} \cup {s_c(j) : j \in 1..maxChain}
 
 \* a "pick" is the tuple of generating choices; the scenario is a function of it
-\* Slicing: several TLC processes each take the scenarios whose first slot falls in their slice.
-KindIdx(k) == CASE k = "plain" -> 0 [] k = "skip1" -> 1 [] k = "skip2" -> 2 [] k = "skipAfterM" -> 3
-                [] k = "allow" -> 4 [] k = "allowPhase" -> 5 [] k = "allowRequest" -> 6 [] k = "deny" -> 7 [] OTHER -> 8
 FlowPicks(n, phases, maxChain, engines, slice, slices) ==
   LET Tm == FlowTemplates(phases, maxChain)
-      T1 == {t \in Tm : (KindIdx(t.k) + 3 * t.p + 5 * t.ch) % slices = slice}
+      T1 == SliceOf(Tm, slice, slices)
   IN [ts : {[i \in 1..n |-> IF i = 1 THEN t1 ELSE rest[i]] : t1 \in T1, rest \in [2..n -> Tm]},
       M : SUBSET FlowKeys(n, maxChain), e : engines]
 FlowScen(pk) == MkScen([i \in 1..Len(pk.ts) |-> FlowRule(i, pk.ts[i])], ReqOf(pk.M), pk.e)
 
 (***************************************************************************)
-(* Family "match" (C01): one or two rules over a small request space.      *)
+(* Families for C01.                                                       *)
+(*  "select"  : every target shape (collection x selector x count x        *)
+(*              exclusion) over every small request; the operator is fixed *)
+(*              so that firing = "something was selected" / "count is n"   *)
+(*  "operate" : transformation lists x operators x negation x multiMatch   *)
+(*              over requests whose values vary                            *)
+(*  "chain"   : chains of 2-3 links whose later links look at ARGS_POST,   *)
+(*              MATCHED_VAR or MATCHED_VARS                                *)
 (***************************************************************************)
-MatchEntries(cols, keys, vals) == {E(c, k, v) : c \in cols, k \in keys, v \in vals}
-MatchSels == {SelAll, SelKey(s_a), SelKey(s_A), SelRx([m |-> "prefix", lit |-> s_a]), SelRx([m |-> "exact", lit |-> s_A])}
-MatchExcls == {<< >>, <<SelKey(s_a)>>, <<SelKey(s_b)>>, <<SelRx([m |-> "prefix", lit |-> s_a])>>}
-MatchTargets(cols) == {Tgt(c, s, cnt, ex) : c \in cols, s \in MatchSels, cnt \in BOOLEAN, ex \in MatchExcls}
-MatchOps == {OpLit("streq", s_x), OpLit("contains", s_x), OpLit("streq", s_a), OpLit("eq", s_1), OpLit("ge", s_2)}
-MatchTfs == {<< >>, <<"lowercase">>, <<"trim", "lowercase">>}
+SelSels  == {SelAll, SelKey(s_a), SelKey(s_A), SelRx([m |-> "prefix", lit |-> s_a]), SelRx([m |-> "exact", lit |-> s_A])}
+SelExcls == {<< >>, <<SelKey(s_a)>>, <<SelKey(s_b)>>, <<SelRx([m |-> "prefix", lit |-> s_a])>>}
+SelCols  == {"ARGS_GET", "ARGS_POST", "ARGS", "ARGS_NAMES", "ARGS_GET_NAMES", "REQUEST_HEADERS"}
+SelTargets == {Tgt(c, sl, FALSE, ex) : c \in SelCols, sl \in SelSels, ex \in SelExcls}
+SelEntries == {E(c, k, s_x) : c \in {"ARGS_GET", "ARGS_POST", "REQUEST_HEADERS"}, k \in {s_a, s_A, s_b}}
+SelOps(cnt) == IF cnt THEN {OpLit("eq", s_1), OpLit("ge", s_2), Op("eq", <<Lit(<<48>>)>>, TRUE)}
+               ELSE {Op("unconditionalMatch", << >>, FALSE)}
+SelectPicks(maxEntries, phases, slice, slices) ==
+  UNION { [tg : {[t EXCEPT !.count = cnt] : t \in SliceOf(SelTargets, slice, slices)}, op : SelOps(cnt), p : phases,
+           rq : SeqsUpTo(SelEntries, maxEntries)] : cnt \in BOOLEAN }
+SelectScen(pk) ==
+  MkScen(<<MkRule(10, pk.p, <<RuleLink(<<pk.tg>>, << >>, pk.op, FALSE, << >>)>>)>>, pk.rq, "On")
 
-MatchRule(id, p, tg, tfs, op, neg, mm) ==
-  MkRule(id, p, <<RuleLink(<<tg>>, tfs, [op EXCEPT !.neg = neg], mm, << >>)>>)
+OpTfs == {<< >>, <<"lowercase">>, <<"trim", "lowercase">>, <<"removeWhitespace", "uppercase">>, <<"length">>}
+OpOps == {OpLit("streq", s_x), OpLit("contains", s_x), OpLit("beginsWith", s_x), OpLit("endsWith", s_X),
+          OpLit("eq", s_1), OpLit("ge", s_2), OpLit("lt", s_2), OpLit("rx", s_x)}
+OpTargets == {T("ARGS"), TK("ARGS_GET", s_a), Tgt("ARGS_GET", SelAll, TRUE, << >>)}
+OpEntries == {E("ARGS_GET", k, v) : k \in {s_a, s_b}, v \in {s_x, s_X, s_sx, << >>, s_xy}}
+OperatePicks(maxEntries, phases, slice, slices) ==
+  [tg : OpTargets, tfs : OpTfs, op : SliceOf(OpOps, slice, slices), neg : BOOLEAN, mm : BOOLEAN, p : phases,
+   rq : SeqsUpTo(OpEntries, maxEntries)]
+OperateScen(pk) ==
+  MkScen(<<MkRule(10, pk.p, <<RuleLink(<<pk.tg>>, pk.tfs, [pk.op EXCEPT !.neg = pk.neg], pk.mm, << >>)>>)>>, pk.rq, "On")
 
-MatchPicks(cols, keys, vals, maxEntries, phases) ==
-  [tg : MatchTargets(cols \cup {"ARGS", "ARGS_NAMES"}), tfs : MatchTfs, op : MatchOps,
-   neg : BOOLEAN, mm : BOOLEAN, p : phases,
-   rq : SeqsUpTo(MatchEntries(cols, keys, vals), maxEntries)]
-MatchScen(pk) == MkScen(<<MatchRule(10, pk.p, pk.tg, pk.tfs, pk.op, pk.neg, pk.mm)>>, pk.rq, "On")
+\* chains: starter over ARGS_GET, links over ARGS_POST / MATCHED_VAR / MATCHED_VARS / &ARGS
+ChainStarters == {RuleLink(<<T("ARGS_GET")>>, tfs, op, FALSE, << >>) :
+                    tfs \in {<< >>, <<"lowercase">>}, op \in {OpLit("streq", s_x), OpLit("contains", s_x)}}
+ChainLinks == {RuleLink(<<tg>>, tfs, op, FALSE, << >>) :
+                 tg \in {T("ARGS_POST"), T("MATCHED_VAR"), T("MATCHED_VARS"), Tgt("ARGS", SelAll, TRUE, << >>)},
+                 tfs \in {<< >>, <<"lowercase">>},
+                 op \in {OpLit("streq", s_x), Op("streq", <<Lit(s_X)>>, TRUE), OpLit("ge", s_2)}}
+ChainEntries == {E(c, s_a, v) : c \in {"ARGS_GET", "ARGS_POST"}, v \in {s_x, s_X}}
+ChainPicks(maxEntries, maxChain, phases, slice, slices) ==
+  [l1 : ChainStarters, ls : UNION {SeqsOfLen(ChainLinks, n) : n \in 1..maxChain}, p : phases,
+   rq : SliceOf(SeqsUpTo(ChainEntries, maxEntries), slice, slices)]
+ChainScen(pk) ==
+  MkScen(<<MkRule(10, pk.p, <<pk.l1>> \o pk.ls),
+           MkRule(20, pk.p, <<RuleLink(<<T("MATCHED_VAR")>>, << >>, OpLit("streq", s_x), FALSE, << >>)>>)>>, pk.rq, "On")
 
 =============================================================================
